@@ -33,6 +33,13 @@ func zzCountResponses(out []byte) (finals int, lastStatus int, lastClose bool, f
 	return finals, lastStatus, lastClose, firstErrAt, true
 }
 
+var zzHexTable = func() (t [256]bool) {
+	for _, c := range []byte("0123456789abcdefABCDEF") {
+		t[c] = true
+	}
+	return
+}()
+
 // ZZ_C03_SRV: server read path under corruption. A valid request (followed by a sentinel) has
 // W adjacent positions - every position - replaced by symbolic bytes. No panic escapes Serve,
 // every byte written is part of a well-formed response, each handled request gets exactly one
@@ -44,6 +51,12 @@ func ZZ_C03_SRV() {
 	w := zz.Param("W", 1)
 	p := zz.Range("pos", 0, len(zzTemplates[t].wire)-w)
 	sym := zz.Bytes("sym", w)
+	if w >= 2 {
+		// stated cut: two adjacent symbolic bytes that are both hexadecimal digits would make a
+		// multi-digit chunk size / Content-Length symbolic, and with it the shape of the heap
+		// (buffers of up to 1 MiB); every single symbolic byte, digits included, is covered at W=1
+		zz.Assume(!(zzHexTable[sym[0]] && zzHexTable[sym[1]]))
+	}
 	copy(wire[p:], sym)
 	stream := zz.Choose("stream", 2) == 1
 	small := zz.Choose("smallmax", 2) == 1
